@@ -52,7 +52,7 @@ pub use protocol::Version;
 pub mod verif {
     pub use crate::generator::verif::{
         begin, dispatch_bytes, dispatch_float, dispatch_int, dispatch_memo_index, dispatch_string,
-        emit_one, finish, memo_kind, push_kind, set_aliases, start, state, take, valid_opcodes,
+        emit_one, finish, memo_kind, push_filled, push_kind, set_aliases, start, state, take, valid_opcodes,
     };
     pub use crate::generator::{EntropySource, GenerationSource};
 }
